@@ -51,6 +51,19 @@ class Command:
     __slots__ = ('idx', 't', 'verb', 'prefix', 'wire', 'name', 'ts', 'fmt_errors', 'answered_t', 'policy')
 
 
+_PREVIOUS_LOOP = object()       # stands for the event loop of an earlier run_forever()
+
+
+class _LoopProxy:
+    """the running loop under another identity (see _reconnect)"""
+
+    def __init__(self, loop):
+        self._loop_ = loop
+
+    def __getattr__(self, name):
+        return getattr(self._loop_, name)
+
+
 class RegWorld(World):
     def __init__(self, scenario):
         super().__init__(scenario, max_steps=60000, max_time=600.0)
@@ -256,15 +269,30 @@ class RegWorld(World):
     def op_reconnect(self, op):
         self.log('reconnect')
         self.stats['fault.reconnect'] += 1
-        self.spawn(self._reconnect(op.get('how', 'shutdown')))
+        self.spawn(self._reconnect(op.get('how', 'shutdown'), bool(op.get('new_loop'))))
 
-    async def _reconnect(self, how='shutdown'):
+    async def _reconnect(self, how='shutdown', new_loop=False):
         if self.face.running:
             if how == 'peer_close':
                 self.face.peer_close()          # the forwarder closes the connection
             else:
                 self.app.shutdown()
         await self.main_task
+        if new_loop:
+            # The application reconnects by calling run_forever() again, i.e. asyncio.run(): the next run is on a NEW event loop.
+            # The simulation goes on with the same loop object; what a new loop changes for the code under test is emulated:
+            # every loop-bound primitive (Semaphore, Lock, Event, ...) the application still holds from the previous run is
+            # bound to a loop that is not the running one any more.
+            import asyncio.mixins as _mx
+            holders = [self.app] + [x for x in (getattr(self.app, 'registerer', None),) if x is not None]
+            for h in holders:
+                for v in list(vars(h).values()):
+                    if isinstance(v, _mx._LoopBoundMixin) and getattr(v, '_loop', None) is self.loop:
+                        v._loop = _PREVIOUS_LOOP
+                        self.stats['fault.primitive_bound_to_previous_loop'] += 1
+            # ... and asyncio.get_running_loop() hands out an object that is not the one remembered from the previous run
+            self.seams.set(asyncio, 'get_running_loop', lambda _p=_LoopProxy(self.loop): _p)
+            self.stats['fault.reconnect_on_new_event_loop'] += 1
         self.connection += 1
         self.main_task = self.spawn(self._main())
 
@@ -617,7 +645,16 @@ def generate(rng, seed, tier='quick'):
                 pol.clear()
                 pol.update({'kind': 'ok', 'delay_us': rng.choice([20000, 30000])})
             t_rc = 2000 + rng.choice([1000, 10000, 25000, 35000])
-        ops.append({'at': t_rc, 'op': 'reconnect', 'how': rng.choice(['shutdown', 'peer_close']), 'mid_startup': mid})
+        rc = {'at': t_rc, 'op': 'reconnect', 'how': rng.choice(['shutdown', 'peer_close']), 'mid_startup': mid}
+        if not mid and rng.random() < 0.35:
+            # the application reconnects with a second run_forever() (a new event loop); it has calls queued up in both runs
+            rc['new_loop'] = True
+            for k_, (cid_, pf_) in enumerate(((91, ['n', 'a']), (92, ['n', 'b']), (93, ['n', 'c']))):
+                ops.append({'at': t_rc - 1, 'op': 'register', 'cid': cid_, 'prefix': pf_, 'with_handler': True})
+            rc['at'] = t_rc = t_rc + 200000
+            for k_, (cid_, pf_) in enumerate(((94, ['n', 'd']), (95, ['n', 'e']), (96, ['n', 'f']))):
+                ops.append({'at': t_rc + 300000 + len(routes_before) * 40000, 'op': 'register', 'cid': cid_, 'prefix': pf_, 'with_handler': True})
+        ops.append(rc)
         for pol in policies:
             if pol['kind'] == 'silence' or pol.get('delay_us', 0) > 30000:
                 pol.clear()
